@@ -15,6 +15,16 @@ CHECKS = {
    note="Trusts reference arithmetic; coefficient alphabets (7-16 members) instead of all coefficients.",
    technique="bounded-exhaustive enumeration of operand tuples against a reference model",
    engine="fields", design_ref="§4 C08"),
+ "C05": dict(category="exploration",
+   text="Adversary enumeration on the stand-alone FRI verifier: configurations x functions (every monomial above the bound, low-degree polynomial corrupted at every point / pairs / half the domain, random) x prover strategies (honest, full remainder, remainder chosen after seeing the queries, tampered opened or committed value per layer, wrong challenge per layer, omitted/duplicated/swapped layers) x ALL position lists of size 1 and 2: the real verifier must return Ok exactly when a reference verifier written from the protocol description accepts. The harness prover model is bound to the code by byte-equality of its honest proof with the real FriProver's.",
+   note="Decides the verifier's deterministic accept/reject procedure, not a soundness probability; trusts coin/hashers/Merkle (C19, C11, C10). The model follows the implementation's convention of keeping the domain offset constant across layers (an equivalent rescaling, degrees unchanged).",
+   technique="exhaustive enumeration of adversary strategies x query positions against a reference verifier, with prover-model trace conformance",
+   engine="frichk", design_ref="§4 C05"),
+ "C15": dict(category="exploration",
+   text="Folding identity on the whole monomial basis for every folding factor and domain up to 512 (linearity settles all functions); position folding / index mapping for all position lists of size <= 3 on domains <= 64; completeness over every well-formed (folding, blowup 2..128, remainder degree 0..255, domain <= 2^10) schedule x 5 polynomial classes x 4 query-list classes, directly and after serialization, with one prover instance reused.",
+   note="Reference arithmetic; domain generator from the library (C07).",
+   technique="bounded-exhaustive enumeration against a coefficient-domain reference",
+   engine="frichk", design_ref="§4 C15"),
  "C09": dict(category="exploration",
    text="For three base fields and quadratic extensions: every monomial c*x^j of every size 2^1..2^11/12 (all j up to n=256/512, a covering set beyond) through evaluate/interpolate/infer_degree and coset evaluation for offsets {1, generator, seeded} x blowups up to 128, expected values in closed form - linearity makes the monomial basis decisive for every polynomial of that size; dense polynomials vs Horner; the segmented RowMatrix LDE for every column count 1..40 and {63,64,65,127,128,129,254,255} x segment widths {1,2,8,16}, every cell vs Horner; ColMatrix variants; row-commitment order.",
    note="Trusts reference arithmetic and the linearity argument; the domain generator is the library's root of unity whose order C07 checks.",
@@ -100,6 +110,7 @@ def main():
             {"name": "fields", "path": "harness/bins/fields", "serves_properties": ["C07", "C08"], "kind_free_text": "alphabet products + representation reachability"},
             {"name": "polyfft", "path": "harness/bins/polyfft", "serves_properties": ["C09", "C20"], "kind_free_text": "monomial-basis FFT checks, segmented LDE, polynomial utilities"},
             {"name": "airdom", "path": "harness/bins/airdom", "serves_properties": ["C16", "C18"], "kind_free_text": "divisor/assertion domains; security-estimate parameter space"},
+            {"name": "frichk", "path": "harness/bins/frichk", "serves_properties": ["C05", "C15"], "kind_free_text": "FRI prover model + reference verifier; folding identity"},
             {"name": "merkle", "path": "harness/bins/merkle", "serves_properties": ["C10"], "kind_free_text": "all subsets x all mutations of Merkle openings"},
             {"name": "hashes", "path": "harness/bins/hashes", "serves_properties": ["C11", "C19"], "kind_free_text": "reference sponge/coin; BFS over coin histories"},
             {"name": "serial", "path": "harness/bins/serial", "serves_properties": ["C12", "C13"], "kind_free_text": "round-trip enumeration over readers; BFS over reader histories"},
